@@ -21,7 +21,7 @@ package server
 //@ func (*server).deliverMessage trusted
 //@ requires srv != nil && msg != nil
 //@ modifies heap, ghost(srv.$fanout), ghost(srv.$fanMsg), ghost(srv.$fanSrc), ghost(srv.$fanTopic), ghost(srv.$fanMatch)
-//@ preserves all(server.*), all(Hooks.*), all(gmqtt.Message.*), all(WillMsgRequest.*), all(gmqtt.Session.*), all(client.*), all(ClientOptions.*), all(packets.Disconnect.*), all(packets.Properties.*), allcells(uint32), allmaps(string, *willMsg), allcells(*server), allcells(*willMsg), allcells(*gmqtt.Message), allcells(string), allcells(bool)
+//@ preserves all(server.*), all(Hooks.*), all(statsManager.*), all(gmqtt.Message.*), all(WillMsgRequest.*), all(gmqtt.Session.*), all(client.*), all(ClientOptions.*), all(packets.Disconnect.*), all(packets.Properties.*), allcells(uint32), allmaps(string, *willMsg), allcells(*server), allcells(*willMsg), allcells(*gmqtt.Message), allcells(string), allcells(bool)
 //@ ensures srv.$fanout == old(srv.$fanout) + 1 && srv.$fanMsg == msg && srv.$fanSrc == srcClientID && srv.$fanTopic == options.TopicName && srv.$fanMatch == int(options.MatchType)
 
 // OnWillPublish: plugin code; it may replace, edit or drop (nil) the message of the request and set the iteration
@@ -51,7 +51,7 @@ package server
 //@ let R = srv.retainedDB
 //@ requires [C08] srv != nil && msg != nil && srv.retainedDB != nil
 //@ modifies heap, ghost(srv.$fanout), ghost(srv.$fanMsg), ghost(srv.$fanSrc), ghost(srv.$fanTopic), ghost(srv.$fanMatch), ghost(H.$wp), ghost(H.$wpMsg), ghost(H.$wpd), ghost(H.$wpdMsg), ghost(R.$msg), ghost(R.$ops)
-//@ preserves all(server.*), all(Hooks.*), all(gmqtt.Session.*), all(client.*), all(ClientOptions.*), all(packets.Disconnect.*), all(packets.Properties.*), allcells(uint32), allmaps(string, *willMsg), allcells(*server), allcells(*willMsg), allcells(*gmqtt.Message), allcells(string), allcells(bool)
+//@ preserves all(server.*), all(Hooks.*), all(statsManager.*), all(gmqtt.Session.*), all(client.*), all(ClientOptions.*), all(packets.Disconnect.*), all(packets.Properties.*), allcells(uint32), allmaps(string, *willMsg), allcells(*server), allcells(*willMsg), allcells(*gmqtt.Message), allcells(string), allcells(bool)
 //@ ensures [C14] old(H.OnWillPublish) != nil ==> H.$wp == old(H.$wp) + 1
 //@ ensures [C14 C08] old(H.OnWillPublish) != nil && H.$wpMsg == nil ==> srv.$fanout == old(srv.$fanout) && R.$ops == old(R.$ops) && H.$wpd == old(H.$wpd)
 //@ ensures [C14 C08] old(H.OnWillPublish) != nil && H.$wpMsg != nil ==> srv.$fanout == old(srv.$fanout) + 1 && srv.$fanMsg == H.$wpMsg && srv.$fanSrc == clientID
@@ -98,13 +98,43 @@ package server
 //@ ensures [C05] result == nil && client.version == 5 && dis.Properties.SessionExpiryInterval != nil && *dis.Properties.SessionExpiryInterval != 0 ==> S.$expSets == old(S.$expSets) + 1 && S.$lastExpID == client.opts.ClientID && S.$lastExp == *dis.Properties.SessionExpiryInterval
 //@ ensures [C05] client.version != 5 || dis.Properties.SessionExpiryInterval == nil || *dis.Properties.SessionExpiryInterval == 0 ==> S.$expSets == old(S.$expSets)
 
-// sessionTerminatedLocked ends a session: store entries removed, OnSessionTerminated told, statistics updated.
-// (Its own contract is with C05; here only that it is a counted step that leaves the will bookkeeping alone.)
+// OnSessionTerminated: plugin code, told about every ended session.
+//@ ghost field (Hooks).st int
+//@ ghost field (Hooks).stID string
+//@ ghost field (Hooks).stReason byte
+//@ func field (Hooks).OnSessionTerminated
+//@ params self, ctx, clientID, reason
+//@ modifies ghost(self.$st), ghost(self.$stID), ghost(self.$stReason)
+//@ ensures self.$st == old(self.$st) + 1 && self.$stID == clientID && self.$stReason == reason
+
+// removeSessionLocked: the client id leaves the online and offline tables and the queue table; its queue is
+// cleaned, its session removed from the session store, all its subscriptions removed — each exactly once, whatever
+// errors the stores report (they are collected into the result).
+//@ func (*server).removeSessionLocked
+//@ props C05
+//@ let S = srv.sessionStore
+//@ let D = srv.subscriptionsDB
+//@ let Q = srv.queueStore[clientID]
+//@ requires [C05] srv != nil && srv.sessionStore != nil && srv.subscriptionsDB != nil && srv.clients != nil && srv.offlineClients != nil && srv.queueStore != nil
+//@ modifies map(srv.clients), map(srv.offlineClients), map(srv.queueStore), ghost(Q.$cleans), ghost(S.$removes), ghost(S.$lastRemoved), ghost(S.$has), ghost(D.$unsubAlls), ghost(D.$lastUnsubAll)
+//@ ensures [C05] !has(srv.clients, clientID) && !has(srv.offlineClients, clientID) && srv.queueStore[clientID] == nil
+//@ ensures [C05] forall k string :: k != clientID ==> has(srv.clients, k) == old(has(srv.clients, k)) && srv.clients[k] == old(srv.clients[k]) && has(srv.offlineClients, k) == old(has(srv.offlineClients, k)) && has(srv.queueStore, k) == old(has(srv.queueStore, k))
+//@ ensures [C05] S.$removes == old(S.$removes) + 1 && S.$lastRemoved == clientID && D.$unsubAlls == old(D.$unsubAlls) + 1 && D.$lastUnsubAll == clientID
+//@ ensures [C05] old(Q) != nil ==> old(Q).$cleans == old(old(Q).$cleans) + 1
+
+// sessionTerminatedLocked ends a session: removeSessionLocked, then OnSessionTerminated is told (once, with the
+// reason), then the statistics drop the session.
 //@ func (*server).sessionTerminatedLocked
 //@ props C05
+//@ let S = srv.sessionStore
+//@ let H = srv.hooks
 //@ requires [C05] srv != nil && srv.sessionStore != nil && srv.subscriptionsDB != nil && srv.statsManager != nil && srv.clients != nil && srv.offlineClients != nil && srv.queueStore != nil
+//@ requires [C05] smOK(srv.statsManager) && (reason == NormalTermination || reason == ExpiredTermination || reason == TakenOverTermination)
 //@ modifies heap
-//@ preserves all(server.*), all(Hooks.*), all(client.*), all(ClientOptions.*), all(gmqtt.Session.*), all(gmqtt.Message.*), all(packets.Disconnect.*), all(packets.Properties.*), allcells(uint32)
+//@ preserves all(server.*), all(Hooks.*), all(statsManager.*), all(client.*), all(ClientOptions.*), all(gmqtt.Session.*), all(gmqtt.Message.*), all(packets.Disconnect.*), all(packets.Properties.*), allcells(uint32)
+//@ ensures [C05] !has(srv.clients, clientID) && !has(srv.offlineClients, clientID) && srv.queueStore[clientID] == nil
+//@ ensures [C05] S.$removes == old(S.$removes) + 1 && S.$lastRemoved == clientID
+//@ ensures [C05 C14] old(H.OnSessionTerminated) != nil ==> H.$st == old(H.$st) + 1 && H.$stID == clientID && H.$stReason == reason
 
 // unregisterClient — the end of a network connection. With sess the stored session (nil: none), keep = "the
 // session outlives the connection" (not force-removed and expiry != 0, the expiry possibly updated by a v5
@@ -121,7 +151,7 @@ package server
 //@ props C08 C05
 //@ let id = client.opts.ClientID
 //@ let sup = client.cleanWillFlag
-//@ requires [C08] srv != nil && client != nil && client.opts != nil && client.rwc != nil && srv.sessionStore != nil && srv.retainedDB != nil && srv.subscriptionsDB != nil && srv.statsManager != nil
+//@ requires [C08] srv != nil && client != nil && client.opts != nil && client.rwc != nil && srv.sessionStore != nil && srv.retainedDB != nil && srv.subscriptionsDB != nil && smOK(srv.statsManager)
 //@ requires [C08] srv.clients != nil && srv.offlineClients != nil && srv.willMessage != nil && srv.queueStore != nil
 //@ requires [C08] client.version == 5 && client.disconnect != nil ==> client.disconnect.Properties != nil
 //@ modifies heap
